@@ -25,9 +25,11 @@ class Proof:
                            ("step", [f"--init={ind_init}", f"--next={next_}", "--length=1"]),
                            ("mutant", [f"--init={ind_init}", f"--next={mutant}", "--length=1"])):
             out = os.path.join(self.wd, "out-" + name)
+            env = dict(os.environ)
+            env["TMPDIR"] = self.wd       # the launcher creates its SANY* scratch directory with mktemp -t
             self.jobs[name] = subprocess.Popen(
                 [APALACHE, "check", f"--inv={inv}", f"--out-dir={out}"] + args + [module + ".tla"], cwd=self.wd,
-                stdout=subprocess.PIPE, stderr=subprocess.STDOUT, text=True)
+                stdout=subprocess.PIPE, stderr=subprocess.STDOUT, text=True, env=env)
 
     def finish(self, timeout=900):
         """Returns a dict; raises TLCError when the proof does not go through."""
